@@ -54,7 +54,7 @@ def select(kind, tier, seed, ncore, nquick):
 
 def run(tier, seed, only=None):
     res = core.Result("C19", tier, seed)
-    ks = [k for k in load()["kernels"] if k["desc"].startswith("sqrt<") and "scaled" not in k["desc"] and "elastic" not in k["desc"]]
+    ks = [k for k in load()["kernels"] if k["desc"].startswith("sqrt<") and "scaled" not in k["desc"]]  # every built-in and elastic kernel, always
     ks += select("sqrt", tier, seed, 40, 150)
     seen = set()
     ks = [k for k in ks if not (k["desc"] in seen or seen.add(k["desc"]))]
